@@ -1,7 +1,8 @@
 (** C06 — a path resolves only to the Sid that owns it, and never makes Sid() fail.  Property theorems only. *)
 From Coq Require Import List String Ascii Bool Arith.
 From Spil Require Import Base.Str Base.Dict Base.Outcome Base.PyPath Resolva.Resolver Conf.Conf Conf.Routing Conf.WF Sid.Sid
-  Search.Unfold Search.Finders FS.Fs Data.Data Data.Crash Path.PathProofs Data.DataProofs Data.CrashProofs.
+  Search.Unfold Search.Finders FS.Fs Data.Data Data.Crash Path.PathProofs Data.DataProofs Data.CrashProofs
+  Path.UnambiguousDefs Path.TotalDefs Path.TotalProofs.
 From SpilGen Require Hamlet.
 Import ListNotations.
 Local Open Scope string_scope.
@@ -34,6 +35,43 @@ Theorem C06_total : forall c Ld, load c = Some Ld -> wf_loadedb Ld = true ->
   exists x, sid_of_path Ld p cfg = Ok x.
 Proof. exact path_total_ok. Qed.
 Print Assumptions C06_total.
+
+(* "never raises", in full: for every configuration passing the decidable checks paths_unambiguousb and paths_totalb
+   (templates with a duplicated placeholder end in a literal / open placeholder / newline-free alternative and are closed
+   under the mapping round trip; template names distinct) and EVERY string p (no guard: newlines, any characters, any length) *)
+Theorem C06_never_raises : forall c Ld p cfg pc, load c = Some Ld -> wf_loadedb Ld = true ->
+  paths_unambiguousb Ld = true -> paths_totalb Ld = true -> get_path_config Ld cfg = Ok pc ->
+  exists x, sid_of_path Ld p cfg = Ok x.
+Proof. exact path_never_raises. Qed.
+Print Assumptions C06_never_raises.
+
+(* through the factory: Sid(path=p, config=cfg) *)
+Theorem C06_factory_never_raises : forall c Ld p cfg pc, load c = Some Ld -> wf_loadedb Ld = true ->
+  paths_unambiguousb Ld = true -> paths_totalb Ld = true -> get_path_config Ld cfg = Ok pc ->
+  exists x, sid_factory Ld (FromPath p cfg) = Ok x.
+Proof. exact factory_path_never_raises. Qed.
+Print Assumptions C06_factory_never_raises.
+
+(* the extra clause is needed: without it the statement is false (counterexample configurations inside the proof) *)
+Theorem C06_clause_needed :
+  ~ (forall (c : Conf) (Ld : Loaded) p cfg pc,
+       load c = Some Ld -> wf_loadedb Ld = true -> paths_unambiguousb Ld = true ->
+       get_path_config Ld cfg = Ok pc -> exists x, sid_of_path Ld p cfg = Ok x).
+Proof. exact path_never_raises_without_clause_false. Qed.
+Print Assumptions C06_clause_needed.
+
+(* the configuration of this run passes both checks: on it Sid(path=p) never raises, for every p *)
+Example C06_checks_hold : paths_unambiguousb Hamlet.the_loaded = true /\ paths_totalb Hamlet.the_loaded = true.
+Proof. vm_compute. auto. Qed.
+Print Assumptions C06_checks_hold.
+
+Theorem C06_never_raises_here : forall p cfg pc, get_path_config Hamlet.the_loaded cfg = Ok pc ->
+  exists x, sid_of_path Hamlet.the_loaded p cfg = Ok x.
+Proof.
+  intros p cfg pc. destruct C06_checks_hold as [Hu Ht].
+  exact (path_never_raises Hamlet.the_conf Hamlet.the_loaded p cfg pc Hamlet.the_loaded_eq Hamlet.conf_wf Hu Ht).
+Qed.
+Print Assumptions C06_never_raises_here.
 
 (* instance: a path with desynchronised duplicate fields resolves to the empty Sid on today's configuration *)
 Example C06_desync_instance :
